@@ -252,6 +252,13 @@ func (ds *dataSet) TruncateGap() (*dataSetRdb, []*dataSetAof) {
 		}
 	}
 
+	// the log has to continue the snapshot : a snapshot whose offset is not where the oldest kept
+	// segment starts is separated from the data by a gap as well
+	if ds.rdb != nil && len(ds.aofSegs) > 0 && ds.aofSegs[0].Left() != ds.rdb.left {
+		rdb = ds.rdb
+		ds.rdb = nil
+	}
+
 	ds.aofMap = make(map[int64]*dataSetAof)
 	for _, a := range ds.aofSegs {
 		ds.aofMap[a.left] = a
